@@ -332,9 +332,16 @@ class Report:
     def nontrivial(self, text):
         self.distinct.add(sha(text))
 
-    def sample(self, case, limit=5):
+    def sample(self, case, limit=8):
         if len(self.samples) < limit:
             self.samples.append(case)
+
+    def actual_sample(self, case, limit=3):
+        """A case this very run executed (put in front of the illustrative ones)."""
+        if sum(1 for x in self.samples if isinstance(x, dict) and x.get("actual_case")) < limit:
+            c = dict(case)
+            c["actual_case"] = True
+            self.samples.insert(0, c)
 
     def note_inconclusive(self, why, detail=None):
         self.inconclusive += 1
